@@ -33,10 +33,12 @@ def fmt(x):
     return x.strftime("%Y%m%dT%H%M%SZ") if isinstance(x, D.datetime) else x.strftime("%Y%m%d")
 
 
-def vevent(uid, dtstart, rules, until=None, rdates=None):
+def vevent(uid, dtstart, rules, until=None, rdates=None, tzid=None):
     is_date = not isinstance(dtstart, D.datetime)
     l = ["BEGIN:VEVENT", "UID:" + uid, "SUMMARY:job " + uid,
          ("DTSTART;VALUE=DATE:" if is_date else "DTSTART:") + fmt(dtstart)]
+    if tzid and not is_date:
+        l[-1] = "DTSTART;TZID=%s:%s" % (tzid, dtstart.strftime("%Y%m%dT%H%M%S"))
     for r in rules:
         l.append("RRULE:" + rfc5545.rule_text(r))
     if rdates:
@@ -67,15 +69,24 @@ def gen_mux(rng):
         rules = [rule_for(rng, is_date) for _ in range(nr)]
         if nr >= 2 and rng.random() < 0.4:
             rules[1] = dict(rules[0])          # identical rule twice: same uid, same instants
+        tzid = None
+        if not is_date and rng.random() < 0.2:
+            tzid = rng.choice(["Europe/Berlin", "America/New_York", "Asia/Tokyo", "Australia/Sydney", "America/Los_Angeles"])
         until_all = rng.random() < 0.3
         for r in rules:
             if "count" not in r and (until_all or rng.random() < 0.5):
                 r["until"] = (dt + D.timedelta(days=rng.choice([0, 10, 100, 1000])))
+                if tzid:
+                    # UNTIL is a UTC value: the instant of the wall-clock time that many days on (an occurrence, for
+                    # rules that keep the time of day)
+                    import zoneinfo
+                    loc = r["until"].replace(tzinfo=zoneinfo.ZoneInfo(tzid))
+                    r["until"] = loc.astimezone(D.timezone.utc).replace(tzinfo=None)
         rd = None
         if rng.random() < 0.2:
             rd = sorted({dt + D.timedelta(days=rng.randint(1, 60)) for _ in range(rng.randint(1, 4))})
-        evs.append(("u%d@verif" % i, dt, rules, rd))
-    text = vcal([vevent(u, dt, rules, rdates=rd) for (u, dt, rules, rd) in evs])
+        evs.append(("u%d@verif" % i, dt, rules, rd, tzid))
+    text = vcal([vevent(u, dt, rules, rdates=rd, tzid=tz) for (u, dt, rules, rd, tz) in evs])
     return text, evs, (is_date if not mixed else None)
 
 
@@ -157,8 +168,16 @@ def run_case(srv, part, rng, tier):
     # constituents, each alone, as many pops as the schedule has
     npops = word.count("p")
     cons = []
-    for (u, dt, rules, rd) in evs:
-        single = vcal([vevent(u, dt, rules, rdates=rd)])
+    # the constituents: every event, and within an event every RRULE (an event with several rules is a merge itself)
+    parts = []
+    for (u, dt, rules, rd, tz) in evs:
+        if len(rules) >= 2:
+            parts.append((u, dt, rules[:1], rd, tz))
+            parts += [(u, dt, [r], None, tz) for r in rules[1:]]
+        else:
+            parts.append((u, dt, rules, rd, tz))
+    for (u, dt, rules, rd, tz) in parts:
+        single = vcal([vevent(u, dt, rules, rdates=rd, tzid=tz)])
         ls = srv.case("n=%d budget=15000" % (npops + 2), single)
         occ = []
         ended = False
